@@ -510,8 +510,12 @@ def check(run):
     m4_entity_isolation(run)
     m5_verify_before_serve(run)
     m7_generator_publishes_every_key(run)
+    from ..common_rules import memo_rule
+    memo_rule(run, "M8", {"mdstore", "metadata", "config"}, "metadata lookups")
     td = run.model.func("mdie.to_dict")
     run.check("for key in _dict.keyswv()" in unparse(td.node) and
               "res[key] = _val" in unparse(td.node), "M1", td.qual + "::keys",
               "dictionary keys are member names", "to_dict changed", td.loc(),
               nontrivial=False)
+    from ..common_rules import misplaced_rule
+    misplaced_rule(run, "M9", {"config", "mdstore", "metadata", "entity", "mdie"}, "building and loading the metadata store")
